@@ -123,6 +123,25 @@ def check_c15(tier, seed, log=print):
         for nexts in (0, 1, 2):
             for x in ns:
                 reqs.append('BUMP b %s %d %d' % (P.hexs(b), nexts, x))
+    # lexers whose Source is a Deref wrapper (a hand-written `impl Logos` may name String, Box<str>, Rc<str>, Cow<str>, Vec<u8>,
+    # Box<[u8]>, Arc<[u8]>): bump has to obey the same rule there - whatever a Source method defaults to must not weaken it
+    for s in srcs_s:
+        b = s.encode('utf-8')
+        n = len(b)
+        ns = sorted(set(list(range(0, n + 3)) + [USIZE_MAX, USIZE_MAX - n + 1, 2 ** 63]))
+        for kind in ('sS', 'sB', 'sR', 'sC'):
+            for nexts in (0, 1, 2):
+                for x in ns:
+                    if 0 <= x <= USIZE_MAX:
+                        reqs.append('BUMP %s %s %d %d' % (kind, P.hexs(b), nexts, x))
+    for b in srcs_b:
+        n = len(b)
+        ns = sorted(set(list(range(0, n + 3)) + [USIZE_MAX, USIZE_MAX - n + 1]))
+        for kind in ('bV', 'bB', 'bA'):
+            for nexts in (0, 1, 2):
+                for x in ns:
+                    if 0 <= x <= USIZE_MAX:
+                        reqs.append('BUMP %s %s %d %d' % (kind, P.hexs(b), nexts, x))
     # the same through a callback: bump(n) called inside `next()`, after skips handled in the same call (token_start moved by
     # trivia), with the panic caught and the lexer used afterwards
     for s in ['   =9 ab', 'ab  cdé', '/* c */ab é', ' é', 'a', '=', '  é=', 'ab /* x */   cd']:
@@ -169,7 +188,7 @@ def check_c15(tier, seed, log=print):
             pre = v.split(' ')[0][4:]
             a, b = pre.split('-')
             t = rq.split(' ')
-            qs[rq] = 'BUMP %s %s %s %s %s' % (t[1], t[2], a, b, t[4])
+            qs[rq] = 'BUMP %s %s %s %s %s' % (t[1][0], t[2], a, b, t[4])      # a wrapper kind (sS, bV, ..) is the base kind to the model
         model = lean_ask(sorted(set(qs.values())))
         for rq in reqs:
             v = out.get(rq)
@@ -194,7 +213,7 @@ def check_c15(tier, seed, log=print):
             def is_b(i):
                 if i > srclen:
                     return False
-                if t[1] == 'b':
+                if t[1][0] == 'b':
                     return True
                 return i == 0 or i == srclen or (src[i] & 0xC0) != 0x80
             in_range = pre_e + n <= USIZE_MAX and is_b(pre_e + n)
@@ -221,7 +240,7 @@ def check_c15(tier, seed, log=print):
     run.coverage.update(dict(obligations=au['obligations'], discharged=au['discharged'], theorems=au['names'], axioms=au['axioms'],
                              checker_cmd=au['checker_cmd'], kernel_recheck=au.get('kernel_recheck'), trusted_base=TRUSTED_BASE,
                              evaluations=evals, distinct_nontrivial=len(nontriv), source_wrapper_probes_ok=src_ok,
-                             rule='Lexer::bump(n) on str and [u8] lexers at three positions, n over 0..len+2, usize::MAX-k, 2^63, 2^64-2 and wrap-around values, in debug and release builds with and without forbid_unsafe, under catch_unwind; '
+                             rule='Lexer::bump(n) on str and [u8] lexers (derived) and on hand-written lexers whose Source is String, Box<str>, Rc<str>, Cow<str>, Vec<u8>, Box<[u8]>, Arc<[u8]> at three positions, n over 0..len+2, usize::MAX-k, 2^63, 2^64-2 and wrap-around values, in debug and release builds with and without forbid_unsafe, under catch_unwind; '
                                   'afterwards span() is inspected and slice()/remainder() only when the span is valid; oracle = the property itself (succeeds iff new end representable, in range and on a boundary; span valid in every case); non-trivial = n > len',
                              samples=samples, configs=list(bins), model_vs_impl_disagreements=tie_dis))
     run.coverage['copies_between_sources'] = copy_api_histories(run, tier, log)
